@@ -189,6 +189,71 @@ theorem side_total (dec : Decoder) (role : Role) (cfg : Cfg) (pool : PoolObj) (s
   · exact outgoing_facts dec cfg pool s e
   · exact incoming_facts dec cfg pool s e
 
+/-! ### 3b. a corrupted frame 1..3 ends in an error on BOTH sides
+
+The two roles composed: the receiver of the corrupted frame runs on `corrupted bytes ++ whatever its
+peer sends later`, and its peer runs on exactly what that receiver wrote (`encAll`), each with an
+arbitrary end condition — every interleaving of the real exchange is an instance (the protocol
+strictly alternates). "Corrupted" = not the beginning of a frame the receiver accepts, whatever
+follows: not a whitelisted, complete, size-bounded credentials frame passing the checker (frames 1, 2),
+not an ack carrying Null (frame 3). Frame 4 is excluded on purpose: the responder has returned
+before it is read (no protocol can do better after the last message). -/
+
+/-- frame 1 (initiator's credentials) replaced: the responder fails, and the initiator — reading what
+the responder wrote — fails too; reads are bounded on both sides; once the responder has closed, the
+initiator does not keep waiting -/
+theorem corrupted_frame1_fails_both {dec : Decoder} {enc : Encoder} {oc ic : Cfg} (W : WellEncoded dec enc oc ic)
+    (g : Bytes) (hg : NotAcceptable dec ic g) (rest : Bytes) (e e' : End) :
+    let i := incoming dec ic .fresh (g ++ rest) e
+    let o := outgoing dec oc .fresh (encAll enc .inc i.wrote) e'
+    i.verdict.isOk = false ∧ o.verdict.isOk = false ∧ SideFacts i ∧ SideFacts o ∧
+      (e' = .eof → o.verdict ≠ .ctx) := by
+  intro i o
+  obtain ⟨hi, ht⟩ := incoming_not_accepted (hg rest e)
+  refine ⟨hi, ?_, incoming_facts _ _ _ _ _, outgoing_facts _ _ _ _ _, ?_⟩
+  · have := out_fails_on_failed_in W [] i.wrote (Or.inl rfl) ht e'
+    simpa using this
+  · intro he; subst he; exact side_eof_no_ctx dec .out oc .fresh _
+
+/-- frame 2 (responder's credentials) replaced: the initiator fails, and the responder — reading the
+initiator's credentials followed by what the failing initiator wrote — fails too -/
+theorem corrupted_frame2_fails_both {dec : Decoder} {enc : Encoder} {oc ic : Cfg} (W : WellEncoded dec enc oc ic)
+    (g : Bytes) (hg : NotAcceptable dec oc g) (rest : Bytes) (e e' : End) :
+    let o := outgoing dec oc .fresh (g ++ rest) e
+    let i := incoming dec ic .fresh (encAll enc .out o.wrote) e'
+    o.verdict.isOk = false ∧ i.verdict.isOk = false ∧ SideFacts o ∧ SideFacts i ∧
+      (e' = .eof → i.verdict ≠ .ctx) := by
+  intro o i
+  obtain ⟨ho, t, hw, ht⟩ := outgoing_not_accepted (hg rest e)
+  refine ⟨ho, ?_, outgoing_facts _ _ _ _ _, incoming_facts _ _ _ _ _, ?_⟩
+  · show (incoming dec ic .fresh (encAll enc .out o.wrote) e').verdict.isOk = false
+    rw [hw]
+    have := in_fails_on_failed_out W t ht e'
+    simpa [encAll] using this
+  · intro he; subst he; exact side_eof_no_ctx dec .inc ic .fresh _
+
+/-- frame 3 (initiator's final ack) replaced by anything that is not an ack(Null): the responder
+fails, and the initiator — reading what the failing responder wrote — fails too -/
+theorem corrupted_frame3_fails_both {dec : Decoder} {enc : Encoder} {oc ic : Cfg} (W : WellEncoded dec enc oc ic)
+    (g : Bytes) (hg : NotNullAck dec g) (rest : Bytes) (e e' : End) :
+    let i := incoming dec ic .fresh (enc .out .cred ++ (g ++ rest)) e
+    let o := outgoing dec oc .fresh (encAll enc .inc i.wrote) e'
+    i.verdict.isOk = false ∧ o.verdict.isOk = false ∧ SideFacts i ∧ SideFacts o ∧
+      (e' = .eof → o.verdict ≠ .ctx) := by
+  intro i o
+  have hi := in_fails_on_bad_final_ack W g hg rest e
+  obtain ⟨pre, t, hw, hpre, ht⟩ := incoming_fail_shape hi
+  refine ⟨hi, ?_, incoming_facts _ _ _ _ _, outgoing_facts _ _ _ _ _, ?_⟩
+  · show (outgoing dec oc .fresh (encAll enc .inc i.wrote) e').verdict.isOk = false
+    rw [hw]
+    exact out_fails_on_failed_in W pre t hpre ht e'
+  · intro he; subst he; exact side_eof_no_ctx dec .out oc .fresh _
+
+/-- non-vacuity: a frame of a non-whitelisted type is "corrupted" for every decoder and checker -/
+example (dec : Decoder) (cfg : Cfg) : NotAcceptable dec cfg [3, 0, 0, 0, 0] := by
+  intro rest e ⟨p1, rest1, f, res, hr, _⟩
+  simp [readRaw, readFull, parseHeader, headerSize, msgTypeCred] at hr
+
 /-! ### 4. the shared pool -/
 
 /-- **session_independent_of_pool_history**: whatever sessions ran before on the pooled object, a
